@@ -459,10 +459,10 @@ type probeT struct {
 }
 
 const (
-	probeMinIter   = 1000
-	stallWindowAB  = 2 * time.Second
-	probeGiveUp    = 6 * time.Second
-	maxWedges      = 12 // every wedge leaks two goroutines and an object for the rest of the process
+	probeMinIter  = 1000
+	stallWindowAB = 2 * time.Second
+	probeGiveUp   = 6 * time.Second
+	maxWedges     = 12 // every wedge leaks two goroutines and an object for the rest of the process
 )
 
 var wedgesLeaked atomic.Int32
@@ -655,7 +655,34 @@ func runProbe(p probeT) (o probeOutcome, err error) {
 	return o, nil
 }
 
-func sigMatrix(p pairT) string { return "C32-matrix-wedge-" + p.String() }
+// sigNested names a nested read lock by the method that holds the read lock while a same-receiver call takes it again.
+func sigNested(method string) string { return "C32-nested-read-lock-" + method }
+
+// nestedShape: the goroutine waits in RLock inside a method that was called from another method of the same receiver
+// type - the shape of a read lock acquired twice. It returns the outer method.
+func nestedShape(wait string, frames []string) (outer string, ok bool) {
+	if wait == "RWMutex.RLock" && len(frames) >= 2 {
+		if t0, t1 := recvType(frames[0]), recvType(frames[1]); t0 != "" && t0 == t1 {
+			return frames[1], true
+		}
+	}
+	return "", false
+}
+
+func recvType(f string) string {
+	if i := strings.LastIndex(f, "."); i > 0 {
+		return f[:i]
+	}
+	return ""
+}
+
+// sigWedge is the signature of a wedged probe.
+func sigWedge(p pairT, o probeOutcome) string {
+	if outer, ok := nestedShape(o.callerWait, o.innerFrames); ok {
+		return sigNested(outer)
+	}
+	return "C32-matrix-wedge-" + p.String()
+}
 
 // checkProbe is the oracle of part (a).
 func checkProbe(p probeT, r *evid.Rec, skip map[string]bool) []evid.Disc {
@@ -688,7 +715,11 @@ func checkProbe(p probeT, r *evid.Rec, skip map[string]bool) []evid.Disc {
 		if len(o.innerFrames) > 0 {
 			inner = fmt.Sprintf(" The caller waits in %s reached through %s.", o.callerWait, strings.Join(o.innerFrames, " <- "))
 		}
-		return []evid.Disc{evid.D(sigMatrix(pair), "%s wedges against a concurrent writer: after %d calls and %d Lock/Unlock rounds neither goroutine made progress in two observations %v apart, and both sit in a lock acquisition of the same object (caller: %s, writer: %s).%s\n%s\n\n%s",
+		sig := sigWedge(pair, o)
+		if r.IsKnown(sig) {
+			skip[pair.String()] = true // confirmed once in this run: every further wedge costs 2 s and two goroutines
+		}
+		return []evid.Disc{evid.D(sig, "%s wedges against a concurrent writer: after %d calls and %d Lock/Unlock rounds neither goroutine made progress in two observations %v apart, and both sit in a lock acquisition of the same object (caller: %s, writer: %s).%s\n%s\n\n%s",
 			pair, o.callerIter, o.lockerIter, stallWindowAB, o.callerWait, o.lockerWait, inner, o.callerStack, o.lockerStack)}
 	case o.gaveUp:
 		r.Label("matrix:probe-gave-up(not judged):" + pair.String())
